@@ -11,6 +11,7 @@ import OapiVerif.Model.Enums
 import OapiVerif.Model.Merge
 import OapiVerif.Model.Union
 import OapiVerif.Model.DeepObject
+import OapiVerif.Model.GoJson
 /-!
 Line-protocol driver: one JSON object per line in, one per line out.
 `{"fn": <name>, ...}` ↦ `{"ok": <result>}` or `{"err": "bad-op"}` (never a default).
@@ -406,8 +407,79 @@ def deepObjectD (j : Json) : Except String Json := do
       | .ok r => Json.mkObj [("keys", jstrs (r.map (hexStr ·.1))), ("vals", jstrs (r.map (hexStr ·.2)))]
   pure (Json.mkObj [("frag", hexStr frag), ("bound", bound)])
 
+open GoJson in
+partial def toJVal : Json → Except String JVal
+  | .null => pure .null
+  | .bool b => pure (.bool b)
+  | .num n => if n.exponent == 0 then pure (.num n.mantissa) else throw "non-integer"
+  | .str s => pure (.str s)
+  | .arr a => do pure (.arr (← a.toList.mapM toJVal))
+  | .obj _ => throw "object-needs-order"
+
+open GoJson in
+/-- Objects arrive as {"$o": [[key, value], …]} so that member order is preserved. -/
+partial def toJValO (j : Json) : Except String JVal :=
+  match j with
+  | .obj _ =>
+    match j.getObjVal? "$o" with
+    | .ok (.arr ms) => do
+      let l ← ms.toList.mapM fun e => do
+        let kv ← e.getArr?
+        if kv.size != 2 then throw "pair" else
+        pure ((← kv[0]!.getStr?), (← toJValO kv[1]!))
+      pure (.obj l)
+    | _ => throw "object-needs-$o"
+  | .arr a => do pure (.arr (← a.toList.mapM toJValO))
+  | other => toJVal other
+
+open GoJson in
+partial def ofJVal : JVal → Json
+  | .null => .null
+  | .bool b => .bool b
+  | .num n => .num (JsonNumber.fromInt n)
+  | .str s => .str s
+  | .arr l => .arr (l.map ofJVal).toArray
+  | .obj m => Json.mkObj [("$o", .arr (m.map fun kv => Json.arr #[.str kv.1, ofJVal kv.2]).toArray)]
+
+section GoTyParse
+open GoJson
+mutual
+partial def toGoTy (j : Json) : Except String GoTy := do
+  let k ← j.getObjValAs? String "k"
+  match k with
+  | "bool" => pure .bool
+  | "int" => pure .int
+  | "string" => pure .string
+  | "ptr" => do pure (.ptr (← toGoTy (← j.getObjVal? "t")))
+  | "slice" => do pure (.slice (← toGoTy (← j.getObjVal? "t")))
+  | "map" => do pure (.map (← toGoTy (← j.getObjVal? "t")))
+  | "struct" => do
+    let fs ← (← j.getObjVal? "fields").getArr?
+    pure (.struct (← toFields fs.toList))
+  | _ => throw "bad-type"
+partial def toFields : List Json → Except String Fields
+  | [] => pure .nil
+  | f :: rest => do
+    let n ← f.getObjValAs? String "name"
+    let om ← f.getObjValAs? Bool "omitempty"
+    let t ← toGoTy (← f.getObjVal? "t")
+    pure (.cons n om t (← toFields rest))
+end
+end GoTyParse
+
+open GoJson in
+def goJsonD (j : Json) : Except String Json := do
+  let t ← toGoTy (← j.getObjVal? "type")
+  let v ← toJValO (← j.getObjVal? "value")
+  let dec := decode t v
+  let out := match dec with
+    | none => Json.null
+    | some gv => match encode t gv with | some r => ofJVal r | none => Json.str "$encode-failed"
+  pure (Json.mkObj [("decoded", Json.bool dec.isSome), ("out", out), ("valid", Json.bool (wf t && valid t v))])
+
 def dispatch (fn : String) (j : Json) : Except String Json :=
   match fn with
+  | "gojson" => goJsonD j
   | "deepObject" => deepObjectD j
   | "unionTable" => unionTableD j
   | "merge" => mergeD j
